@@ -264,3 +264,58 @@ def sweep(ctx: Ctx, which: set) -> dict:
                             "trees": r["trees"]})
     agg["samples"] = samples
     return agg
+
+
+def work_first_tree(item: tuple) -> dict:
+    """FIRST-TREE requests (Grammar.parse: what seeds, generator results and `fandango parse` use) on the grammars with a derivation
+    cycle, for every member word: some of them return on the pinned tree although the forest request does not (the first tree is handed
+    out lazily); the ones that do not are listed, input by input, in known_findings.json. One fresh spec per request."""
+    g, start, maxlen, alphabet = item[:4]
+    fan = g.fan()
+    feats = families.features(g)
+    res: dict = {"fan": fan, "start": start, "requests": 0, "returned": 0, "viol": []}
+    if "derivation_cycle" not in feats or "+" in start:
+        return res
+    counter = AdmissionCounter(ADMISSION_BUDGET)
+    with counter:
+        for w in words(alphabet, min(maxlen, 4), binary=g.binary):
+            if not WordMatcher(g, w).member(start):
+                continue
+            try:
+                spec = build(fan, start_symbol=start)
+            except Exception:
+                return res
+            res["requests"] += 1
+            counter.reset()
+            counter.budget = ADMISSION_BUDGET
+            status = "ok"
+            try:
+                with time_limit(60.0):
+                    spec.grammar.parse(w, start=start)
+            except Budget:
+                status = "budget"
+            except Timeout:
+                status = "timeout"
+            except Exception as e:  # a raised error is an answer
+                status = f"error:{type(e).__name__}"
+            counter.reset(True)
+            if status in ("budget", "timeout"):
+                res["viol"].append(("C06", {"grammar": fan, "start": start, "word": repr(w), "feats": feats, "request": "first_tree", "kind": "nontermination",
+                                            "status": "budget", "derivation_cycle": True, "case_key": f"{fan}|{start}|{w!r}",
+                                            "sig": "nontermination:first_tree:" + ",".join(feats)}))
+            else:
+                res["returned"] += 1
+    return res
+
+
+def sweep_first_tree(ctx: Ctx) -> dict:
+    items = [it for it in grammar_items("quick") if "derivation_cycle" in families.features(it[0]) and "+" not in it[1]]
+    results = pmap_tagged(work_first_tree, items, chunk=1)
+    agg = {"grammars_with_a_derivation_cycle": len(items), "first_tree_requests": 0, "returned": 0, "did_not_return": 0}
+    for r in results:
+        agg["first_tree_requests"] += r["requests"]
+        agg["returned"] += r["returned"]
+        agg["did_not_return"] += len(r["viol"])
+        for _, case in r["viol"]:
+            ctx.violation(case)
+    return agg
